@@ -227,7 +227,11 @@ def run_case(case, ctx):
                 a0 = int(rng.integers(0, nch - 4))
                 chans = np.array([a0, a0 + 2, a0 + 1, a0 + 3])
             bs = int(rng.choice([200, 1, 2, 4]))  # small batches exercise the per-batch bookkeeping
-            names = fil.extract_chans(chans, os.path.join(d, "oc"), batch_size=bs, **rkw)
+            allch = bool(case["pseed"] % 9 == 4)
+            if allch:      # the documented default: no list means every channel
+                chans = np.arange(nch)
+                ctx.count("extract_chans:default_all_channels")
+            names = fil.extract_chans(None if allch else chans, os.path.join(d, "oc"), batch_size=bs, **rkw)
             if len(names) != len(chans):
                 ctx.violation("file-count:extract_chans", f"{len(names)} files for {len(chans)} channels", case)
                 return
